@@ -31,6 +31,12 @@ Proof.
   - now apply find_put_other.
 Qed.
 
+Lemma after_expire_incl k p st : expiry_inclusive (after_expire k p st) = expiry_inclusive st.
+Proof.
+  unfold after_expire. cbn [exec]. destruct (lookup st k) as [e|]; [|reflexivity].
+  destruct (p <=? 0); reflexivity.
+Qed.
+
 Lemma after_expire_now k p st : rnow (after_expire k p st) = rnow st.
 Proof.
   unfold after_expire. cbn [exec]. destruct (lookup st k) as [e|]; [|reflexivity].
@@ -38,58 +44,65 @@ Proof.
 Qed.
 
 Section Period.
-Variables q p : Z.
-Hypothesis Hp : 1 <= p.
+Variable c : pcfg.
+(* every window the limiter can ask for is at least one second (period >= 1, see window_spec) *)
+Hypothesis Hwin : forall t, 1 <= window c t.
 Variable key : bulk.
+Notation q := (pquota c).
 
 (* first request of a period *)
 Lemma take_fresh s :
   pdown s = false -> lookup (pstore s) key = None ->
-  exists st2, take q p key s = (mkP st2 false, (code_of 1 q, false)) /\
-    find key (rdata st2) = Some (mkEntry (BInt 1) (Some (rnow (pstore s) + p * 1000))) /\
-    rnow st2 = rnow (pstore s).
+  exists st2, take c key true s = (mkP st2 false, (code_of 1 q, false)) /\
+    find key (rdata st2) = Some (mkEntry (BInt 1) (Some (rnow (pstore s) + window c (rnow (pstore s)) * 1000))) /\
+    rnow st2 = rnow (pstore s) /\ expiry_inclusive st2 = expiry_inclusive (pstore s).
 Proof.
-  intros Hd HL. unfold take. rewrite Hd, period_script_spec, HL. cbv beta iota zeta.
+  intros Hd HL. unfold take. rewrite Hd. cbn [orb negb]. rewrite period_script_spec, HL. cbv beta iota zeta.
   rewrite period_reply_code. unfold after_expire. cbn [exec].
   rewrite lookup_put_same. cbn [live eexp].
-  assert (E : (p <=? 0) = false) by (apply Z.leb_gt; lia). rewrite E. cbn [snd evalue].
-  eexists. split; [reflexivity|]. split; [|reflexivity].
+  pose proof (Hwin (rnow (pstore s))) as W.
+  assert (E : (window c (rnow (pstore s)) <=? 0) = false) by (apply Z.leb_gt; lia). rewrite E. cbn [snd evalue].
+  eexists. split; [reflexivity|]. split; [|split; reflexivity].
   cbn [store_put rdata rnow]. now rewrite find_put_same.
 Qed.
 
 (* a later request within the period *)
-Lemma take_counted s c E :
-  pdown s = false -> 1 <= c ->
-  find key (rdata (pstore s)) = Some (mkEntry (BInt c) (Some E)) -> rnow (pstore s) < E ->
-  take q p key s =
-  (mkP (store_put (pstore s) key (mkEntry (BInt (c + 1)) (Some E))) false, (code_of (c + 1) q, false)).
+Lemma take_counted s n E :
+  pdown s = false -> 1 <= n ->
+  find key (rdata (pstore s)) = Some (mkEntry (BInt n) (Some E)) ->
+  before (expiry_inclusive (pstore s)) (rnow (pstore s)) E = true ->
+  take c key true s =
+  (mkP (store_put (pstore s) key (mkEntry (BInt (n + 1)) (Some E))) false, (code_of (n + 1) q, false)).
 Proof.
-  intros Hd Hc HF HE. unfold take. rewrite Hd, period_script_spec.
-  assert (HL : lookup (pstore s) key = Some (mkEntry (BInt c) (Some E))).
-  { unfold lookup. rewrite HF. unfold live; cbn. apply Z.ltb_lt in HE. now rewrite HE. }
+  intros Hd Hc HF HE. unfold take. rewrite Hd. cbn [orb negb]. rewrite period_script_spec.
+  assert (HL : lookup (pstore s) key = Some (mkEntry (BInt n) (Some E))).
+  { unfold lookup. rewrite HF. unfold live; cbn. now rewrite HE. }
   rewrite HL. cbv beta iota zeta. rewrite period_reply_code.
-  assert (N : (c + 1 =? 1) = false) by (apply Z.eqb_neq; lia). now rewrite N.
+  assert (N : (n + 1 =? 1) = false) by (apply Z.eqb_neq; lia). now rewrite N.
 Qed.
 
 (* a request on another key does not touch this key's counter *)
-Lemma take_other s k' :
+Lemma take_other s k' brk :
   bulk_eqb key k' = false ->
-  let s' := fst (take q p k' s) in
+  let s' := fst (take c k' brk s) in
   find key (rdata (pstore s')) = find key (rdata (pstore s)) /\
-  rnow (pstore s') = rnow (pstore s) /\ pdown s' = pdown s.
+  rnow (pstore s') = rnow (pstore s) /\ pdown s' = pdown s /\
+  expiry_inclusive (pstore s') = expiry_inclusive (pstore s).
 Proof.
-  intro N. unfold take. destruct (pdown s) eqn:Hd; [cbn; rewrite Hd; auto|].
+  intro N. unfold take. destruct (pdown s || negb brk)%bool eqn:Hd; [cbn; auto|].
+  apply orb_false_iff in Hd. destruct Hd as [Hd _].
   rewrite period_script_spec.
   destruct (lookup (pstore s) k') as [[[v|x] ex]|]; cbv zeta; cbn [fst pstore pdown].
   - destruct (v + 1 =? 1).
-    + rewrite after_expire_other, after_expire_now by assumption. cbn. now rewrite find_put_other.
+    + rewrite after_expire_other, after_expire_now, after_expire_incl by assumption. cbn. now rewrite find_put_other.
     + cbn. now rewrite find_put_other.
   - auto.
-  - rewrite after_expire_other, after_expire_now by assumption. cbn. now rewrite find_put_other.
+  - rewrite after_expire_other, after_expire_now, after_expire_incl by assumption. cbn. now rewrite find_put_other.
 Qed.
 
-(* histories that leave this key's period alone: requests on any key by any caller, outages,
-   time passing, foreign writes to OTHER keys *)
+(* histories that leave this key's period alone: requests on any key by any caller (answered by
+   Redis, failed by an outage or cut off by the circuit breaker), outages, time passing, TTL
+   observations, foreign writes to OTHER keys *)
 Definition calm (o : pop) : bool :=
   match o with
   | PAdvance ms => 0 <=? ms
@@ -107,72 +120,97 @@ Fixpoint pelapsed (ops : list pop) : Z :=
 (* the answers given to the requests on this key, in order *)
 Fixpoint answers (ops : list pop) (rs : list pobs) : list pobs :=
   match ops, rs with
-  | PTake k :: ops', r :: rs' => if bulk_eqb key k then r :: answers ops' rs' else answers ops' rs'
+  | PTake k _ :: ops', r :: rs' => if bulk_eqb key k then r :: answers ops' rs' else answers ops' rs'
   | _ :: ops', _ :: rs' => answers ops' rs'
   | _, _ => []
   end.
 
-(* what they must be: the request that makes the counter c+1 gets code_of (c+1); a request
-   during an outage gets (Unknown, error) and is not counted *)
-Fixpoint expect (c : Z) (down : bool) (ops : list pop) : list pobs :=
+(* what they must be: the request that makes the counter n+1 gets code_of (n+1); a request that
+   does not reach Redis (outage, breaker open) gets (Unknown, error) and is not counted *)
+Fixpoint expect (n : Z) (down : bool) (ops : list pop) : list pobs :=
   match ops with
   | [] => []
-  | PTake k :: ops' =>
+  | PTake k brk :: ops' =>
     if bulk_eqb key k
-    then if down then Some (Unknown, true) :: expect c down ops'
-         else Some (code_of (c + 1) q, false) :: expect (c + 1) down ops'
-    else expect c down ops'
-  | PDown :: ops' => expect c true ops'
-  | PUp :: ops' => expect c false ops'
-  | _ :: ops' => expect c down ops'
+    then if (down || negb brk)%bool then PAns Unknown true :: expect n down ops'
+         else PAns (code_of (n + 1) q) false :: expect (n + 1) down ops'
+    else expect n down ops'
+  | PDown :: ops' => expect n true ops'
+  | PUp :: ops' => expect n false ops'
+  | _ :: ops' => expect n down ops'
   end.
 
-Fixpoint counted (c : Z) (down : bool) (ops : list pop) : Z :=
+Fixpoint counted (n : Z) (down : bool) (ops : list pop) : Z :=
   match ops with
-  | [] => c
-  | PTake k :: ops' => if (bulk_eqb key k && negb down)%bool then counted (c + 1) down ops' else counted c down ops'
-  | PDown :: ops' => counted c true ops'
-  | PUp :: ops' => counted c false ops'
-  | _ :: ops' => counted c down ops'
+  | [] => n
+  | PTake k brk :: ops' =>
+    if (bulk_eqb key k && negb (down || negb brk))%bool then counted (n + 1) down ops' else counted n down ops'
+  | PDown :: ops' => counted n true ops'
+  | PUp :: ops' => counted n false ops'
+  | _ :: ops' => counted n down ops'
   end.
 
-Lemma period_history : forall ops s c E,
-  1 <= c -> find key (rdata (pstore s)) = Some (mkEntry (BInt c) (Some E)) ->
-  rnow (pstore s) + pelapsed ops < E -> forallb calm ops = true ->
-  answers ops (prun q p s ops) = expect c (pdown s) ops /\
-  find key (rdata (pstore (pfinal q p s ops))) = Some (mkEntry (BInt (counted c (pdown s) ops)) (Some E)) /\
-  rnow (pstore (pfinal q p s ops)) = rnow (pstore s) + pelapsed ops.
+Lemma pelapsed_nonneg ops : forallb calm ops = true -> 0 <= pelapsed ops.
 Proof.
-  induction ops as [|o ops IH]; intros s c E Hc HF HE HQ.
+  induction ops as [|o ops IH]; cbn; [lia|]. intro HQ. apply andb_true_iff in HQ.
+  destruct HQ as [H1 H2]. specialize (IH H2). destruct o; cbn in H1; try lia.
+Qed.
+
+Lemma period_history : forall ops s n E,
+  1 <= n -> find key (rdata (pstore s)) = Some (mkEntry (BInt n) (Some E)) ->
+  rnow (pstore s) + pelapsed ops < E -> forallb calm ops = true ->
+  answers ops (prun c s ops) = expect n (pdown s) ops /\
+  find key (rdata (pstore (pfinal c s ops))) = Some (mkEntry (BInt (counted n (pdown s) ops)) (Some E)) /\
+  rnow (pstore (pfinal c s ops)) = rnow (pstore s) + pelapsed ops /\
+  expiry_inclusive (pstore (pfinal c s ops)) = expiry_inclusive (pstore s).
+Proof.
+  induction ops as [|o ops IH]; intros s n E Hc HF HE HQ.
   - cbn. repeat split; auto. lia.
   - cbn [forallb] in HQ. apply andb_true_iff in HQ. destruct HQ as [Hq HQ].
-    assert (Hel : 0 <= pelapsed ops).
-    { clear -HQ. induction ops as [|o ops IH]; cbn; [lia|]. cbn in HQ. apply andb_true_iff in HQ.
-      destruct HQ as [H1 H2]. specialize (IH H2). destruct o; cbn in H1; try lia. }
-    destruct o as [k|ms| | |k v]; cbn [prun pfinal pstep answers expect counted pelapsed] in *.
+    pose proof (pelapsed_nonneg ops HQ) as Hel.
+    destruct o as [k brk|ms| | |k v|k]; cbn [prun pfinal pstep answers expect counted pelapsed] in *.
     + destruct (bulk_eqb key k) eqn:EK.
       * apply bulk_eqb_eq in EK. subst k. cbn [andb].
-        destruct (pdown s) eqn:Hd.
+        destruct (pdown s || negb brk)%bool eqn:Hd.
         -- unfold take. rewrite Hd. cbn [fst snd negb].
-           destruct (IH s c E Hc HF HE HQ) as [A [B C]]. rewrite Hd in A, B. rewrite A. auto.
-        -- rewrite (take_counted s c E Hd Hc HF ltac:(lia)). cbn [fst snd negb].
-           destruct (IH (mkP (store_put (pstore s) key (mkEntry (BInt (c + 1)) (Some E))) false) (c + 1) E) as [A [B C]];
+           destruct (IH s n E Hc HF HE HQ) as [A [B [C D]]]. rewrite A. auto.
+        -- apply orb_false_iff in Hd. destruct Hd as [Hd Hb]. apply negb_false_iff in Hb. subst brk.
+           rewrite (take_counted s n E Hd Hc HF ltac:(apply before_lt; lia)). cbn [fst snd negb].
+           destruct (IH (mkP (store_put (pstore s) key (mkEntry (BInt (n + 1)) (Some E))) false) (n + 1) E) as [A [B [C D]]];
              auto; try lia.
            ++ cbn. now rewrite find_put_same.
-           ++ cbn in *. rewrite A. auto.
-      * cbn [andb]. destruct (take_other s k EK) as [T1 [T2 T3]].
-        destruct (take q p k s) as [s' r]. cbn [fst snd] in *.
-        destruct (IH s' c E Hc) as [A [B C]]; auto; try congruence; try lia.
-        rewrite T3 in A, B. rewrite T2 in C. auto.
+           ++ cbn in *. rewrite Hd in *. rewrite A. auto.
+      * cbn [andb]. destruct (take_other s k brk EK) as [T1 [T2 [T3 T4]]].
+        destruct (take c k brk s) as [s' [cd e]]. cbn [fst snd] in *.
+        destruct (IH s' n E Hc) as [A [B [C D]]]; auto; try congruence; try lia.
+        rewrite T3 in A, B. rewrite T2 in C. rewrite T4 in D. auto.
     + apply Z.leb_le in Hq.
-      destruct (IH (mkP (advance (pstore s) ms) (pdown s)) c E Hc) as [A [B C]]; auto; cbn in *; try lia.
+      destruct (IH (mkP (advance (pstore s) ms) (pdown s)) n E Hc) as [A [B [C D]]]; auto; cbn in *; try lia.
       repeat split; auto. lia.
-    + destruct (IH (mkP (pstore s) true) c E Hc) as [A [B C]]; auto.
-    + destruct (IH (mkP (pstore s) false) c E Hc) as [A [B C]]; auto.
+    + destruct (IH (mkP (pstore s) true) n E Hc) as [A [B [C D]]]; auto.
+    + destruct (IH (mkP (pstore s) false) n E Hc) as [A [B [C D]]]; auto.
     + apply negb_true_iff in Hq. cbn [fst].
       destruct (pdown s) eqn:Hd.
-      * destruct (IH s c E Hc) as [A [B C]]; auto. rewrite Hd in A, B. auto.
-      * destruct (IH (mkP (store_put (pstore s) k (mkEntry v None)) false) c E Hc) as [A [B C]]; auto.
+      * destruct (IH s n E Hc) as [A [B [C D]]]; auto. rewrite Hd in A, B. auto.
+      * destruct (IH (mkP (store_put (pstore s) k (mkEntry v None)) false) n E Hc) as [A [B [C D]]]; auto.
         cbn. now rewrite find_put_other.
+    + cbn [fst]. destruct (IH s n E Hc) as [A [B [C D]]]; auto.
 Qed.
 End Period.
+
+(* the window of a PeriodLimit: the period, or with Align() the distance to the next multiple
+   of the period on the local clock *)
+Lemma window_spec c now_ms : 1 <= pperiod c ->
+  1 <= window c now_ms <= pperiod c /\
+  (palign c = true -> (now_ms / 1000 + poffset c + window c now_ms) mod pperiod c = 0) /\
+  (palign c = false -> window c now_ms = pperiod c).
+Proof.
+  intro Hp. unfold window. destruct (palign c).
+  - pose proof (Z.mod_pos_bound (now_ms / 1000 + poffset c) (pperiod c) ltac:(lia)) as B.
+    split; [lia|]. split; [|discriminate]. intros _.
+    replace (now_ms / 1000 + poffset c + (pperiod c - (now_ms / 1000 + poffset c) mod pperiod c))
+      with ((now_ms / 1000 + poffset c - (now_ms / 1000 + poffset c) mod pperiod c) + 1 * pperiod c) by lia.
+    rewrite Z.mod_add by lia.
+    rewrite Zminus_mod, Zmod_mod, Z.sub_diag. reflexivity.
+  - split; [lia|]. split; [discriminate|auto].
+Qed.
